@@ -179,6 +179,12 @@ def _stat_atoms(kind, d, la, sa, low, high, key) -> dict:
         fit2_ok &= _follows(xs2[:, i], x, cdf, N)
     out = {"TotalMassIsOne": bool(mass_ok), "SamplesFollowTheStatedDensity": bool(fit_ok),
            "SamplesOfSampleAndLogProbFollowTheStatedDensity": bool(fit2_ok)}
+    if len(loc) >= 2:
+        # a product law: components are independent - sample correlations vanish up to 6 / sqrt(N) (shared noise gives |corr| = 1)
+        def indep(z):
+            c = np.corrcoef(z.T)
+            return bool(np.all(np.abs(c[~np.eye(len(loc), dtype=bool)]) <= 6.0 / math.sqrt(N)))
+        out["ComponentsAreSampledIndependently"] = indep(xs) and indep(xs2)
     try:
         h = float(np.asarray(d.entropy()).sum())
         lps = np.asarray(jax.vmap(d.log_prob)(jnp.asarray(xs.reshape((N,) + np.asarray(la).shape), dtype=jnp.float32)), dtype=np.float64).reshape(N, -1).sum(axis=1)
